@@ -61,6 +61,7 @@ class Firmware:
         self.greeting = cfg.get("greeting", "start")
         self.boot_delay = float(cfg.get("boot", 0.05))
         self.reply_hook = None     # callable(fw, idx, cmd) -> list[str] | None
+        self.lat_hook = None       # callable(idx, text) -> extra latency in seconds
         self.rx_hook = None        # callable(fw, idx, text) at arrival
         self.processed_hook = None  # callable(fw, idx) after the reply block was queued
         self.nboots = 0
@@ -136,6 +137,8 @@ class Firmware:
                 self.k.probe("fw.dropped_while_booting")
                 continue
             lat = self.draws.next("lat", 0.0)
+            if self.lat_hook is not None:
+                lat += self.lat_hook(idx, text)
             t = max(self.k.now, self.busy_until, self.boot_done_at) + lat
             self.busy_until = t
             self.pending += 1
